@@ -1,10 +1,132 @@
 import Driver.Util
+import Hv.Misc.SdkTags
 
-/-! Placeholder: the line-protocol driver of domain C22 is not written yet. -/
+/-! Line-protocol driver for the SDK tag model (domain C22).  Same ops and reply format as
+    `/verif/harness/c22.go`.  From the three classifiers of the model it predicts what each probe
+    of the harness observes on the real conversion functions, and whether an end-to-end
+    save/read returns the model unchanged.  A reply is flagged when the classifiers disagree on
+    a tag: `C22-substring-tag-match` (a slot fires although the tag head is not its name) or
+    `C22-whole-tag-equality` (the head is a reserved name but the slot does not fire). -/
 namespace Driver.C22
+open Hv.SdkTags
 
-def run (_args : List String) : IO UInt32 := do
-  IO.eprintln "drv: domain C22 has no driver yet"
-  return 2
+def predOf (s : String) : Pred :=
+  if s == "eq" then .eq else if s == "contains" then .contains else if s == "headEq" then .headEq else .unknown
+
+def hexVal (c : Char) : Option Nat :=
+  if '0' ≤ c ∧ c ≤ '9' then some (c.toNat - '0'.toNat)
+  else if 'a' ≤ c ∧ c ≤ 'f' then some (c.toNat - 'a'.toNat + 10)
+  else none
+
+def unhexBytes : List Char → Option (List UInt8)
+  | [] => some []
+  | [_] => none
+  | a :: b :: rest =>
+    match hexVal a, hexVal b, unhexBytes rest with
+    | some x, some y, some bs => some (UInt8.ofNat (x * 16 + y) :: bs)
+    | _, _, _ => none
+
+/-- tags travel as hex of their UTF-8 bytes; the model works on characters -/
+def tagOf (s : String) : Option Tag :=
+  if s == "-" then some []
+  else match unhexBytes s.toList with
+    | some bs => (String.fromUTF8? (ByteArray.mk bs.toArray)).map (·.toList)
+    | none => none
+
+def digitChar (d : Nat) : Char := if d < 10 then Char.ofNat (48 + d) else Char.ofNat (87 + d)
+def hexOfTag (t : Tag) : String :=
+  String.ofList ((String.ofList t).toUTF8.toList.flatMap fun c => [digitChar (c.toNat / 16), digitChar (c.toNat % 16)])
+
+def isTimeSlot : Slot → Bool
+  | .expireAt | .createdAt | .updatedAt => true
+  | _ => false
+
+def slotCode : Slot → String
+  | .key => "K" | .value => "V" | .expireAt => "EA" | .createdBy => "CB" | .createdAt => "CA"
+  | .updatedBy => "UB" | .updatedAt => "UA"
+
+def slotStr (s : Slot) : String := String.ofList (slotName s)
+
+/-- what the encoder leaves in the KeyValuePair for the probe {K:"kk", X:<"xv" | time>} -/
+def encObs (cfg : Cfg) (t : Tag) (timeProbe : Bool) : String :=
+  let l := encSlots cfg t
+  -- the first slot whose branch rejects the probe's Go type
+  let bad := l.find? (fun s => if timeProbe then (s == .key || s == .createdBy || s == .updatedBy) else isTimeSlot s)
+  match bad with
+  | some s => "err:" ++ slotStr s
+  | none =>
+    let k := if l.contains .key then "xv" else "kk"
+    let marks := [Slot.value, .expireAt, .createdBy, .createdAt, .updatedBy, .updatedAt].filter l.contains
+    let parts := ["K=" ++ k] ++ marks.map slotCode ++ (if isBody t then ["B"] else [])
+    ",".intercalate parts
+
+/-- what the decoder leaves in X from a treasure with every slot filled -/
+def decObs (cfg : Cfg) (t : Tag) (timeProbe : Bool) : String :=
+  match (decSlots cfg t).head? with
+  | none =>
+    if timeProbe then (if isBody t then "1672531204" else "zero")
+    else "s:" ++ (if isBody t then "tb" else "")
+  | some s =>
+    if timeProbe then
+      match s with
+      | .value => "1900000000" | .expireAt => "2240611201" | .createdAt => "1609459202" | .updatedAt => "1640995203"
+      | _ => "panic"
+    else
+      match s with
+      | .key => "s:tk" | .value => "s:tv" | .createdBy => "s:tcb" | .updatedBy => "s:tub"
+      | _ => "panic"
+
+def shapeObs (t : Tag) : String :=
+  match headSlot t with
+  | some .value => "shape=1 body="
+  | some _ => "shape=0 body="
+  | none => if head t == [] then "shape=0 body=" else "shape=2 body=" ++ hexOfTag (head t)
+
+def flagOf (cfg : Cfg) (t : Tag) : String :=
+  if decide (Agree cfg t) then ""
+  else
+    let hs := (headSlot t).toList
+    let extra := (encSlots cfg t ++ decSlots cfg t).any (fun s => !hs.contains s)
+    if extra then "\t#F:C22-substring-tag-match" else "\t#F:C22-whole-tag-equality"
+
+def kindOK (t : Tag) (kind : String) : Bool :=
+  match headSlot t with
+  | some .key | some .createdBy | some .updatedBy => kind == "s"
+  | some .expireAt | some .createdAt | some .updatedAt => kind == "t"
+  | _ => head t != ['Z', 'z']
+
+/-- tags of the end-to-end model built by the harness -/
+def rtTags (t : Tag) (extra : String) : List Tag :=
+  let hs := headSlot t
+  (if hs == some .key then [] else [slotName .key]) ++
+  (if extra == "meta" then (metaSlots.filter (fun s => hs != some s)).map slotName else []) ++
+  [t] ++ (if hs == some .value then [] else [['Z', 'z']])
+
+def step (cfg : Cfg) (_ : Unit) (line : String) : Unit × String :=
+  match line.splitOn " " with
+  | ["case", _] => ((), line)
+  | ["tag", h] =>
+    match tagOf h with
+    | none => ((), "bad-op")
+    | some t =>
+      ((), s!"{shapeObs t} es={encObs cfg t false} et={encObs cfg t true} ds={decObs cfg t false} dt={decObs cfg t true}{flagOf cfg t}")
+  | ["rt", h, kind, extra] =>
+    match tagOf h with
+    | none => ((), "bad-op")
+    | some t =>
+      if !kindOK t kind || (kind != "s" && kind != "t") || (extra != "none" && extra != "meta") then ((), "bad-op")
+      else
+        let tags := rtTags t extra
+        if tags.all (fun x => decide (Agree cfg x)) then ((), "ok") else ((), "bad" ++ flagOf cfg t)
+  | _ => ((), "bad-op")
+
+def run (args : List String) : IO UInt32 := do
+  let kv := parseArgs args
+  let p (k : String) : Pred := predOf (arg kv k)
+  let cfg : Cfg :=
+    ⟨⟨p "encKey", p "encValue", p "encExpireAt", p "encCreatedBy", p "encCreatedAt", p "encUpdatedBy", p "encUpdatedAt"⟩,
+     ⟨p "decKey", p "decValue", p "decExpireAt", p "decCreatedBy", p "decCreatedAt", p "decUpdatedBy", p "decUpdatedAt"⟩⟩
+  lineLoop (step cfg) ()
+  return 0
 
 end Driver.C22
